@@ -41,7 +41,7 @@ P["C15"] = dict(cat="proof",
     note=NOTE_COMMON, tech="Coq proof of model = definition + extracted judge run against the implementation", ref="DESIGN.md C15")
 
 P["C02"] = dict(cat="proof",
-    text="Coq: regular_bf decides 'exists a +-1 signing of the nonzeros that is TU' (regular_bf_spec over the proved determinant "
+    text="beyond the oracle's size the verdict is decided for graphic / cographic matrices certified by their graph (proved regular: GraphicRegular.v). Coq: regular_bf decides 'exists a +-1 signing of the nonzeros that is TU' (regular_bf_spec over the proved determinant "
          "oracle, incl. the prefix-heredity lemma justifying the pruned search); judge soundness. Tie: CMRregularTest on all 0/1 "
          "matrices with m*n <= 12/16 under a covering set of strategy x directGraphicness x seriesParallel x planarityCheck, all 4290 "
          "5x5 matrices passing the R10 count test, random and structured supports with random parameter vectors incl. stop flags.",
